@@ -762,9 +762,9 @@ class Fxp():
             vdtype = val.dtype
         
         # scaling conversion
-        self.scaled = False
+        _scaled = False     # (the flag of the object is updated once the transformation succeeded: a rejected input leaves it as it was)
         if self.scale is not None and self.bias is not None and raw:
-            self.scaled = bool(self.bias != 0 or self.scale != 1)   # a raw value is stored as it is; the object keeps its scaling
+            _scaled = bool(self.bias != 0 or self.scale != 1)   # a raw value is stored as it is; the object keeps its scaling
         if self.scale is not None and self.bias is not None and not raw:
             if (self.bias != 0 or self.scale != 1) and val.dtype.kind in 'iuf' and (val.dtype.itemsize < 8 or val.dtype.kind == 'u'):
                 # narrow or unsigned input types would wrap around or lose bits in the transformation: calculate it in 64 bits
@@ -775,7 +775,7 @@ class Fxp():
                 val = val / self.scale
 
             if self.bias != 0 or self.scale != 1:
-                self.scaled = True # update scaled flag
+                _scaled = True # update scaled flag
 
                 # update vdtype due scaling tranformation
                 if vdtype == int and (isinstance(self.bias, float) or self.scale != 1):
@@ -784,6 +784,8 @@ class Fxp():
             # check if it is a numpy array
             if not isinstance(val, (np.ndarray, np.generic)):
                 val = np.array(val)
+
+        self.scaled = _scaled
 
         if return_sizes:
             return val, vdtype, raw, signed, n_word, n_frac
